@@ -62,7 +62,7 @@ func genC07(r *sim.Rand, tier string) *sim.Program {
 				p.Add("smallc1", lay, r.PickInt(17883, 60190, 84295, 126495, 173403, 193197, 252436, 302857)).WithB(r.Bytes(msgLen()))
 			case 11:
 				// the same algorithms over another curve (sm2_legacy.go): round trip and tamper checks only
-				p.Add("legacy", r.Intn(4), r.Intn(5), r.Intn(1<<30), r.PickInt(0, 0, 1)).WithB(r.Bytes(r.PickInt(1, 32, 33, 100)))
+				p.Add("legacy", r.Intn(4), r.Intn(5), r.Intn(1<<30), r.PickInt(0, 0, 1, 2, 2, 3)).WithB(r.Bytes(r.PickInt(1, 32, 33, 100)))
 			default:
 				p.Add("enc", lay, r.Intn(1<<30)).WithB(r.Bytes(msgLen()))
 			}
@@ -82,7 +82,7 @@ func genC07(r *sim.Rand, tier string) *sim.Program {
 		case 1, 2:
 			o := p.Add("relay", ct)
 			for k := r.Range(1, 4); k > 0; k-- {
-				o.I = append(o.I, int64(r.Intn(5)))
+				o.I = append(o.I, int64(r.Intn(5)+5*r.PickInt(0, 0, 1, 2))) // target layout + how the options object is supplied
 			}
 		case 3, 4, 5:
 			p.Add("subst", ct, r.Intn(1<<16), 1+r.Intn(255))
@@ -91,7 +91,7 @@ func genC07(r *sim.Rand, tier string) *sim.Program {
 		case 7:
 			p.Add("trunc", ct, 1+r.Intn(70))
 		case 8:
-			p.Add("c1", ct, r.Intn(4), r.Intn(nct))
+			p.Add("c1", ct, r.Intn(8), r.Intn(nct))
 		default:
 			p.Add("wrongkey", ct)
 		}
@@ -297,6 +297,24 @@ func execC07(t *testing.T, p *sim.Program, c *sim.Ctx) {
 					kb[j] = 0 // every scripted block is below the group order
 				}
 			}
+			if op.Int(3)&2 == 2 && bl <= 48 {
+				// constructive: an ephemeral scalar whose shared point [k]P has a coordinate with a leading zero octet (1 in
+				// 128 by chance): the KDF and C3 inputs are the FIXED-LENGTH coordinates (GB/T 32918.4 with 4.2.6 of part 1)
+				for j := 0; j < 400; j++ {
+					cand := derive(append([]byte{byte(j), byte(j >> 8)}, kb[:bl]...), "lz", bl)
+					cand[0] = 0
+					kx := new(big.Int).SetBytes(cand)
+					if kx.Sign() == 0 || kx.Cmp(cv.Params().N) >= 0 {
+						continue
+					}
+					x2, y2 := cv.ScalarMult(lp.X, lp.Y, kx.Bytes())
+					if x2.BitLen() <= 8*bl-8 || y2.BitLen() <= 8*bl-8 {
+						copy(kb, cand)
+						c.Hit("probe:legacy-shared-point-with-leading-zero-octet")
+						break
+					}
+				}
+			}
 			if op.Int(3)&1 == 1 {
 				// constructive: the message equals the mask of the first scripted scalar, so that C2 is all zero - a
 				// legitimate output of the algorithm on this curve too
@@ -321,6 +339,33 @@ func execC07(t *testing.T, p *sim.Program, c *sim.Ctx) {
 			if err != nil || !bytes.Equal(got, msg) {
 				c.Fail("roundtrip", i, op.K, "%s, layout %d: decrypting what the library encrypted does not return the message: %v", cv.Params().Name, lay, err)
 				return
+			}
+			if lay == 0 || lay == 1 {
+				// the ciphertext against GB/T 32918.4 computed with crypto/elliptic and the model SM3: (x2, y2) = [d]C1,
+				// t = KDF(x2 || y2), M = C2 xor t, C3 = SM3(x2 || M || y2) with fixed-length coordinates
+				if len(ct) == 1+2*bl+32+len(msg) && ct[0] == 4 {
+					cx, cy := new(big.Int).SetBytes(ct[1:1+bl]), new(big.Int).SetBytes(ct[1+bl:1+2*bl])
+					rest := ct[1+2*bl:]
+					c3, c2 := rest[:32], rest[32:]
+					if lay == 1 {
+						c2, c3 = rest[:len(msg)], rest[len(msg):]
+					}
+					if cv.IsOnCurve(cx, cy) {
+						x2, y2 := cv.ScalarMult(cx, cy, lp.D.Bytes())
+						xb, yb := x2.FillBytes(make([]byte, bl)), y2.FillBytes(make([]byte, bl))
+						t := sm3m.KDF(append(append([]byte{}, xb...), yb...), len(c2))
+						m2 := make([]byte, len(c2))
+						for j := range m2 {
+							m2[j] = c2[j] ^ t[j]
+						}
+						u := sm3m.SumParts(xb, m2, yb)
+						if !bytes.Equal(m2, msg) || !bytes.Equal(u[:], c3) {
+							c.Fail("ciphertext-mismatch", i, op.K, "%s, layout %d: the ciphertext does not decrypt under GB/T 32918.4 computed independently (fixed-length x2 || y2 in the KDF and in C3; x2 has %d bits, y2 %d bits of %d)", cv.Params().Name, lay, x2.BitLen(), y2.BitLen(), 8*bl)
+							return
+						}
+						c.Hit("probe:legacy-ciphertext-checked-against-model")
+					}
+				}
 			}
 			if lay == 2 {
 				// the layout is recognised by its first byte whatever the options (sm2.Decrypt, Decrypt(nil opts)): only
@@ -422,8 +467,10 @@ func execC07(t *testing.T, p *sim.Program, c *sim.Ctx) {
 			case "relay":
 				cur, lay := rec.ct, rec.lay
 				chain := ""
+				sharedOpts := false
 				for _, t64 := range op.I[1:] {
 					to := ((int(t64) % 5) + 5) % 5
+					optsHow := ((int(t64) / 5 % 3) + 3) % 3 // 0: an options object built for the call; 1: the package's ASN1EncrypterOpts (its point format and order are those of layout 0); 2: nil (the default options)
 					chain += fmt.Sprint(to)
 					var next []byte
 					var err error
@@ -434,6 +481,12 @@ func execC07(t *testing.T, p *sim.Program, c *sim.Ctx) {
 					switch {
 					case to == lay:
 						next = cur
+					case lay == 2 && to == 0 && optsHow == 1: // ASN.1 -> plain with the package-level options object that EncryptASN1 uses too
+						next, err = sm2.ASN1Ciphertext2Plain(cur, sm2.ASN1EncrypterOpts)
+						sharedOpts = true
+					case lay == 2 && to == 0 && optsHow == 2:
+						next, err = sm2.ASN1Ciphertext2Plain(cur, nil)
+						sharedOpts = true
 					case lay == 2: // ASN.1 -> plain
 						next, err = sm2.ASN1Ciphertext2Plain(cur, c07Opts(to))
 					case to == 2: // plain -> ASN.1
@@ -468,8 +521,27 @@ func execC07(t *testing.T, p *sim.Program, c *sim.Ctx) {
 					}
 					cur, lay = next, to
 				}
-				c.Abs("relay", rec.lay, chain)
+				c.Abs("relay", rec.lay, chain, sharedOpts)
 				c.Hit("probe:relay-chain")
+				if sharedOpts {
+					// the converter was handed an options object that other calls use as well: they must not notice
+					c.Hit("probe:converter-with-package-level-options")
+					kb := scalarFrom(append([]byte{byte(i)}, rec.ct...), "after-relay")
+					a1, e1 := sm2.EncryptASN1(&sim.ScriptReader{Data: kb, Fill: 3, Step: 5}, &priv.PublicKey, []byte("after the relay"))
+					p1, e2 := sm2.Encrypt(&sim.ScriptReader{Data: kb, Fill: 3, Step: 5}, &priv.PublicKey, []byte("after the relay"), nil)
+					if e1 != nil || e2 != nil {
+						c.Fail("encrypt-failed", i, op.K, "encryption after a relay failed: %v %v", e1, e2)
+						return
+					}
+					if _, _, _, ok := sm2m.ParseCipherASN1(a1); !ok {
+						c.Fail("ciphertext-mismatch", i, op.K, "after ASN1Ciphertext2Plain was called with the package-level options, EncryptASN1 no longer produces the ASN.1 layout: %x...", a1[:8])
+						return
+					}
+					if _, _, _, ok := sm2m.ParseRawCipher(p1, true); !ok || len(p1) != 1+64+32+len("after the relay") {
+						c.Fail("ciphertext-mismatch", i, op.K, "after a converter was called with nil options, Encrypt with default options no longer produces the plain C1C3C2 layout")
+						return
+					}
+				}
 				deliver(i, "relayed", priv, d, lay, cur, rec.msg)
 			case "subst":
 				m := append([]byte{}, rec.ct...)
@@ -559,6 +631,45 @@ func execC07(t *testing.T, p *sim.Program, c *sim.Ctx) {
 					}
 				}
 			case "c1":
+				if op.Int(1)&7 >= 4 {
+					// the ASN.1 layout with the INTEGER of x1 (or y1, or both) replaced by its NEGATION in DER (two's complement):
+					// a structurally valid element, consistent lengths, a coordinate outside [0, p-1]
+					tr := sim.ParseAllTLV(c07Marshal(2, rec.c1, rec.c2, rec.c3))
+					if tr == nil || len(tr.Children) != 4 {
+						continue
+					}
+					which := op.Int(1)&7 - 3 // 1: x, 2: y, 3: both, 4: x again
+					neg := func(t *sim.TLV) {
+						v := new(big.Int).SetBytes(t.Content)
+						if v.Sign() == 0 {
+							return
+						}
+						// minimal two's complement of -v
+						n := (v.BitLen() + 8) / 8 // room for the sign bit
+						tw := new(big.Int).Sub(new(big.Int).Lsh(big.NewInt(1), uint(8*n)), v)
+						b := tw.FillBytes(make([]byte, n))
+						for len(b) > 1 && b[0] == 0xff && b[1]&0x80 != 0 {
+							b = b[1:]
+						}
+						t.Content = b
+					}
+					if which&1 == 1 || which == 4 {
+						neg(tr.Children[0])
+					}
+					if which&2 == 2 {
+						neg(tr.Children[1])
+					}
+					m := tr.Encode()
+					c.Abs("c1neg", which)
+					c.Hit("fault:c1-coordinate-negated")
+					deliver(i, fmt.Sprintf("c1-negated-%d", which), priv, d, 2, m, rec.msg)
+					if !c.Failed() {
+						if plain, err := sm2.ASN1Ciphertext2Plain(m, nil); err == nil {
+							c.Fail("invalid-ciphertext-accepted", i, op.K, "ASN1Ciphertext2Plain converts an ASN.1 ciphertext with a NEGATIVE C1 coordinate into a plain ciphertext (%d bytes)", len(plain))
+						}
+					}
+					continue
+				}
 				kind := op.Int(1) & 3
 				var c1 sm2m.Point
 				var m []byte
